@@ -531,6 +531,11 @@ func worldC18(w *World) {
 	w.K.ChaosMult = []int{2, 1, 4}[t.Choice(3, "chaos")]
 	plat := simplatform.New()
 	users := []string{"alice@example.com", "bob@example.com"}
+	if t.Rare(1, 3, "mixedcase-user") {
+		// (the platform reports an account's address as the account spells it)
+		users[0] = "Alice.Smith@Example.com"
+		w.Probe("end_user_address_with_upper_case_letters")
+	}
 	prefixMenu := []string{"/", "/a", "/a/", "/a/b", "/a/b/c", "/ab", "/b", "", "/a/b/", "/x/y/z"}
 	nB := t.Range(1, 6, "backends")
 	var backends []*gaeBackend
